@@ -128,6 +128,19 @@ def _check_pair_on(ea, eb, LO, HI, spanb):
 
     if (canon(A), canon(B)) != before:
         viols.append(Viol("operand-mutated", tag))
+    else:
+        # the caller edits each RESULT in place (an entry removed, one added): the operands must not notice
+        for opname, res in (("difference", d), ("intersection", i), ("union", u), ("mergeLabels", m)):
+            if not hasattr(res, "entries") or res is A or res is B:
+                if res is A or res is B:
+                    viols.append(Viol("result-is-an-operand", f"{opname} returned one of its operands itself  [{tag}]"))
+                continue
+            if len(res.entries):
+                call(res.deleteEntry, res.entries[0])
+            call(res.insertEntry, (HI + 1.0, HI + 2.0, "edited"), "merge", "silence")
+            if (canon(A), canon(B)) != before:
+                viols.append(Viol("result-aliases-operand", f"editing the result of {opname} in place changed an operand: A={canon(A)[4]} B={canon(B)[4]}  [{tag}]"))
+                break
     nov = sum(1 for a in FA for b in FB if ival.overlaps(a, b))
     ntouch = sum(1 for a in FA for b in FB if a[1] == b[0] or b[1] == a[0])
     return 9, f"ov{nov}", (tuple((s, e) for s, e, _ in ea), tuple((s, e) for s, e, _ in eb), spanb) if nov or ntouch else None, viols
